@@ -5,7 +5,7 @@
     repaired newUClientConnection) and compares every dial's extension with what a reader of
     the model's bytes gets. *)
 From Coq Require Import List ZArith Bool String.
-From V Require Import Gen.Params Lib.Hex Wire.Varint USpec.Model UDial.Model.
+From V Require Import Gen.Params Lib.Hex Wire.Varint USpec.Model UDial.Model USpec.HistoryModel.
 Import ListNotations.
 Open Scope Z_scope.
 
@@ -16,7 +16,9 @@ Definition mkp (x : rp) : param := let '(id, s, t) := x in P id (hx s) t.
    key_exchange length, bytes when the spec supplied bytes for that entry, else "") *)
 Inductive dstep :=
 | DStep (sup : list Z) (rnd : bool) (swaps : list (Z * Z)) (scid : string) (wire : list (Z * string))
-        (wkeys : list (Z * Z * string)).
+        (wkeys : list (Z * Z * string))
+(* a call of QUICSpec.TransportParamIDs() under the settings in force, and what it returned *)
+| DIds (sup : list Z) (rnd : bool) (ids : list Z).
 (* keys0: the spec's KeyShareExtension as (group, Data) *)
 Inductive case := DSeq (ps0 : list rp) (keys0 : list (Z * string)) (steps : list dstep).
 
@@ -28,31 +30,35 @@ Definition nonneg_swaps (sw : list (Z * Z)) : bool :=
 (* the recorded swaps must be those of rand.Shuffle over the kept list (n-1 .. 1, j <= i);
    none when the dial does not shuffle *)
 Definition swaps_ok (ps : list param) (s : dstep) : bool :=
-  let '(DStep sup rnd sw _ _ _) := s in
-  if rnd then nonneg_swaps sw && swaps_wellformed (List.length (suppress sup ps) - 1) (nat_swaps sw)
-  else match sw with [] => true | _ => false end.
+  match s with
+  | DStep sup rnd sw _ _ _ =>
+    if rnd then nonneg_swaps sw && swaps_wellformed (List.length (suppress sup ps) - 1) (nat_swaps sw)
+    else match sw with [] => true | _ => false end
+  | DIds _ _ _ => true
+  end.
 
-Fixpoint ops_of (steps : list dstep) : list op :=
+Fixpoint ops_of (steps : list dstep) : list hop :=
   match steps with
   | [] => []
+  | DIds sup rnd _ :: r => HSetSup sup :: HSetRnd rnd :: HIds :: ops_of r
   | DStep sup rnd sw scid _ wk :: r =>
     (* the keys uTLS generates are not the model's business: any key longer than one byte *)
-    OSetSup sup :: OSetRnd rnd ::
-    ODial (hx scid) (Oracle (map snd (nat_swaps sw)) [] (repeat [1; 1] (List.length wk))) :: ops_of r
+    HSetSup sup :: HSetRnd rnd ::
+    HDial (hx scid) (Oracle (map snd (nat_swaps sw)) [] (repeat [1; 1] (List.length wk))) :: ops_of r
   end.
 
 Inductive obs :=
 | OBadSwaps
 | OPanic
-| OWires (l : list (option (list (Z * list Z)) * list keyshare)).
+| OWires (l : list hout).
 
 Definition model_obs (c : case) : obs :=
   let '(DSeq ps0 keys0 steps) := c in
   let ps := map mkp ps0 in
   let keys := map (fun k => KS (fst k) (hx (snd k))) keys0 in
   if forallb (swaps_ok ps) steps then
-    match run (Spec ps None keys [] [] false) (ops_of steps) with
-    | Some (_, views) => OWires (map (fun sw => (parse (wExt (snd sw)), wKeys (snd sw))) views)
+    match hrun (Spec ps None keys [] [] false) (ops_of steps) with
+    | Some (_, outs) => OWires outs
     | None => OPanic
     end
   else OBadSwaps.
@@ -76,11 +82,15 @@ Fixpoint keys_eqb (spec : list (Z * string)) (m : list keyshare) (w : list (Z * 
      end) && keys_eqb spec' m' w'
   | _, _, _ => false
   end.
-Fixpoint wires_eqb (keys0 : list (Z * string)) (m : list (option (list (Z * list Z)) * list keyshare)) (steps : list dstep) : bool :=
+Fixpoint wires_eqb (keys0 : list (Z * string)) (m : list hout) (steps : list dstep) : bool :=
   match m, steps with
   | [], [] => true
-  | (Some l, ks) :: m', DStep _ _ _ _ wire wk :: r =>
-    wire_eqb l wire && (match wk with [] => true | _ => keys_eqb keys0 ks wk end) && wires_eqb keys0 m' r
+  | HWire _ w :: m', DStep _ _ _ _ wire wk :: r =>
+    match parse (wExt w) with
+    | Some l => wire_eqb l wire && (match wk with [] => true | _ => keys_eqb keys0 (wKeys w) wk end) && wires_eqb keys0 m' r
+    | None => false
+    end
+  | HIdsOut ids :: m', DIds _ _ ids' :: r => zeqb_list ids ids' && wires_eqb keys0 m' r
   | _, _ => false
   end.
 
